@@ -14,6 +14,8 @@ import (
 	"net"
 	"sort"
 	"strings"
+	"sync"
+	"sync/atomic"
 	"time"
 
 	xcluster "github.com/envoyproxy/go-control-plane/envoy/config/cluster/v3"
@@ -1003,6 +1005,123 @@ func corpus() [][]op {
 	}
 }
 
+// runConcurrent (support only; swap atomicity itself is trusted): lookups racing with updates of one router and one cluster
+// must always see one of the configurations that was installed as a whole — never a mixture, never a failure, never a panic;
+// the host a snapshot's load balancer picks must belong to that snapshot's host set.
+func runConcurrent(c *hx.Ctx, round int) {
+	configmanager.Reset()
+	cluster.NewClusterManagerSingleton(nil, nil, nil).Destroy()
+	cm := cluster.NewClusterManagerSingleton(nil, nil, nil)
+	rm := router.GetRoutersMangerInstance()
+	rname, cname := fmt.Sprintf("conc%d.%d", c.Seed, round), "cc"
+	mk := func(ids ...string) []vhost {
+		v := vhost{name: "v", doms: []string{"*"}}
+		for _, id := range ids {
+			v.routes = append(v.routes, route{id: id, valid: true})
+		}
+		return []vhost{v}
+	}
+	cfgA, cfgB := mk("a1", "a2"), mk("b1", "b2", "b3")
+	allowedR := map[string]bool{"a1+a2": true, "a1+a2+ax": true, "b1+b2+b3": true, "-": true} // "-": RemoveAllRoutes on B
+	hs := func(ports ...int) []host {
+		var out []host
+		for _, p := range ports {
+			out = append(out, host{addr: fmt.Sprintf("127.0.0.1:%d", p), name: "n", w: 1})
+		}
+		return out
+	}
+	h1, h2 := hs(7001, 7002), hs(7003, 7004, 7005)
+	allowedC := map[string]bool{"7001,7002": true, "7003,7004,7005": true, "7009,7001,7002": true, "7002": true}
+	rm.AddOrUpdateRouters(routerCfg(rname, cfgA))
+	cm.AddOrUpdateClusterAndHost(clusterCfg(cname, 1, nil), hostCfgs(h1))
+
+	var stop, mixed, failed, panics, lookups int64
+	var wg sync.WaitGroup
+	reader := func() {
+		defer wg.Done()
+		defer func() {
+			if r := recover(); r != nil {
+				atomic.AddInt64(&panics, 1)
+			}
+		}()
+		for atomic.LoadInt64(&stop) == 0 {
+			atomic.AddInt64(&lookups, 1)
+			w := rm.GetRouterWrapperByName(rname)
+			if w == nil || w.GetRouters() == nil {
+				atomic.AddInt64(&failed, 1)
+				continue
+			}
+			ctx := variable.NewVariableContext(context.Background())
+			variable.SetString(ctx, types.VarHost, "a.b")
+			variable.SetString(ctx, types.VarPath, "/")
+			var ids []string
+			for _, r := range w.GetRouters().MatchAllRoutes(ctx, protocol.CommonHeader{}) {
+				ids = append(ids, r.RouteRule().ClusterName(ctx))
+			}
+			if !allowedR[dashJoin(ids)] {
+				atomic.AddInt64(&mixed, 1)
+			}
+			snap := cm.GetClusterSnapshot(context.Background(), cname)
+			if snap == nil {
+				atomic.AddInt64(&failed, 1)
+				continue
+			}
+			var ports []string
+			set := map[string]bool{}
+			snap.HostSet().Range(func(h types.Host) bool {
+				a := h.AddressString()
+				ports = append(ports, a[strings.LastIndex(a, ":")+1:])
+				set[a] = true
+				return true
+			})
+			if !allowedC[strings.Join(ports, ",")] {
+				atomic.AddInt64(&mixed, 1)
+			}
+			if h := snap.LoadBalancer().ChooseHost(nil); h == nil || !set[h.AddressString()] {
+				atomic.AddInt64(&mixed, 1)
+			}
+		}
+	}
+	for i := 0; i < 4; i++ {
+		wg.Add(1)
+		go reader()
+	}
+	n := c.N(300, 3000)
+	for i := 0; i < n; i++ {
+		switch i % 6 {
+		case 0:
+			rm.AddOrUpdateRouters(routerCfg(rname, cfgB))
+			cm.UpdateClusterHosts(cname, hostCfgs(h2))
+		case 1:
+			rm.RemoveAllRoutes(rname, "a.b")
+			cm.AddOrUpdatePrimaryCluster(clusterCfg(cname, 2, nil))
+		case 2:
+			rm.AddOrUpdateRouters(routerCfg(rname, cfgA))
+			cm.UpdateClusterHosts(cname, hostCfgs(h1))
+		case 3:
+			rt := route{id: "ax", valid: true}.cfg()
+			rm.AddRoute(rname, "a.b", &rt)
+			cm.AppendClusterHosts(cname, hostCfgs(hs(7009)))
+		case 4:
+			rm.AddOrUpdateRouters(routerCfg(rname, cfgA))
+			cm.RemoveClusterHosts(cname, []string{"127.0.0.1:7009", "127.0.0.1:7001"})
+		case 5:
+			cm.AddOrUpdateClusterAndHost(clusterCfg(cname, 1, nil), hostCfgs(h1))
+		}
+	}
+	atomic.StoreInt64(&stop, 1)
+	wg.Wait()
+	verdict := "ok"
+	if mixed > 0 || failed > 0 || panics > 0 {
+		verdict = fmt.Sprintf("bad:mixed=%d,failed=%d,panics=%d", mixed, failed, panics)
+	}
+	c.Emit("C12", fmt.Sprintf("conc %d %d", round, n), verdict)
+	c.Count("conc.rounds")
+	if lookups > 0 {
+		c.Count("conc.lookups>0")
+	}
+}
+
 // mix64 (splitmix finalizer): hx.NewRng(seed) starts consecutive seeds one step apart on the same stream, so the derived
 // thorough seeds (seed*1000+k) would re-align and repeat each other's histories; scatter them first.
 func mix64(z uint64) uint64 {
@@ -1020,6 +1139,9 @@ func Run(c *hx.Ctx) {
 	for _, h := range corpus() {
 		runHistory(c, h)
 		c.Count("stream=corpus")
+	}
+	for round := 0; round < c.N(3, 10); round++ {
+		runConcurrent(c, round)
 	}
 	g := &gen{c: c}
 	n := c.N(5000, 40000)
